@@ -344,7 +344,7 @@ func genCases(thorough bool, repo string) []Case {
 					for arr := 0; arr < 4; arr++ {
 						for fl := 0; fl < nfl; fl++ {
 							f := &FileSpec{Layout: ly.L, TextLead: ly.textLead, RoLead: ly.roLead, SecOrder: (li + pi + arr) % 2,
-								Perm: p, Arr: arr, Decoys: (pi+arr)%2 == 0}
+								Perm: p, Arr: arr, Decoys: (pi+arr)%2 == 0, ABI: 1 + (kc+li+pi+arr+fl)%4}
 							c := kc
 							for i := 0; i < nk; i++ {
 								k := defKernel(i, c%3)
@@ -393,6 +393,32 @@ func genCases(thorough bool, repo string) []Case {
 						}
 						cases = append(cases, Case{Family: "mimic/" + m.Name, Spec: f})
 					}
+				}
+			}
+		}
+	}
+	// ---- B2: ELF identification: descriptor objects of code-object versions V3..V6 (EI_ABIVERSION 1..4) in every
+	// position and layout - descriptors exist from V3 on and LLVM 11-17 / ROCm 3-6 default to V3..V5 (seed C13-7)
+	for abi := 1; abi <= 4; abi++ {
+		for pos := 0; pos < 3; pos++ {
+			for li, ly := range lys {
+				for sym := 0; sym < 4; sym++ {
+					k := defKernel(1, kindDesc)
+					k.HasVg, k.HasSg = sym&1 == 1, sym&2 == 2
+					var f *FileSpec
+					switch pos {
+					case 0:
+						f = embed(k, false, ly, li%2)
+					case 1:
+						f = embed(k, true, ly, li%2)
+					default:
+						f = embed(k, false, ly, li%2)
+						f.Kernels = append(f.Kernels, defKernel(2, kindDesc))
+						f.Perm = []int{1, 0}
+						f.Arr = 3
+					}
+					f.ABI = abi
+					cases = append(cases, Case{Family: "ident", Spec: f})
 				}
 			}
 		}
